@@ -9,6 +9,7 @@ mod c11;
 mod canon;
 mod doc;
 mod stack;
+mod c15;
 
 fn main() {
     let mode = std::env::args().nth(1).unwrap_or_default();
@@ -53,6 +54,7 @@ fn dispatch(mode: &str, line: &str) -> String {
         "doc" => doc::run_doc(line),
         "val" => doc::run_val(line),
         "stack" => stack::run(line),
+        "c15" => c15::run(line),
         _ => format!("bad-mode {mode}"),
     }
 }
